@@ -266,6 +266,7 @@ def decode_files(work, sc, pattern="out*.nc"):
         with Dataset(fn) as d:
             tv, ref = _abs_time(d.variables["time"], d.variables["time"][:])
             recs = []
+            ghost = 0          # dense layout: cells of any instance variable holding a value where the particle is not alive (X is fill)
             if "particle_count" in d.variables:
                 cnt = [int(c) for c in np.ma.filled(d.variables["particle_count"][:], -1)]
                 arr = {v: np.ma.filled(d.variables[v][:].astype(float), np.nan) for v in ["pid", "X", "Y", "Z"] + ivars if v in d.variables}
@@ -284,7 +285,9 @@ def decode_files(work, sc, pattern="out*.nc"):
                     arr = {"pid": idx.astype(float)}
                     for v in ["X", "Y", "Z"] + ivars:
                         if v in d.variables:
-                            arr[v] = np.ma.filled(np.ma.asarray(d.variables[v][n]).astype(float), np.nan)[idx]
+                            full = np.ma.filled(np.ma.asarray(d.variables[v][n]).astype(float), np.nan)
+                            arr[v] = full[idx]
+                            ghost += int(np.isfinite(np.delete(full, idx)).sum())
                     recs.append(_rec(tv[n], arr, slice(0, len(idx)), ivars))
                 ninst = sumc = sum(len(r["pid"]) for r in recs)
             pv = {}
@@ -292,7 +295,7 @@ def decode_files(work, sc, pattern="out*.nc"):
                 pv["release_time"], _ = _abs_time(d.variables["release_time"], d.variables["release_time"][:])
             if "src" in d.variables:
                 pv["src"] = [int(x) for x in np.ma.filled(d.variables["src"][:], NEG)]
-            files.append(dict(idx=int(m.group(1)) if m else -1, name=list(os.path.basename(fn)), recs=recs, ninst=ninst, sumcount=sumc, ref=ref,
+            files.append(dict(idx=int(m.group(1)) if m else -1, name=list(os.path.basename(fn)), recs=recs, ninst=ninst, sumcount=sumc, ref=ref, ghost=ghost,
                               pv_release_time=pv.get("release_time", []), pv_src=pv.get("src", []),
                               npart=int(len(d.dimensions["particle"])) if "particle" in d.dimensions else 0))
     return files
